@@ -7,6 +7,8 @@ import GqlVerif.Proofs.C01Rust
 import GqlVerif.Proofs.C01VariantSpread
 import GqlVerif.Proofs.C01VariantSpreadG
 import GqlVerif.Proofs.C01RustSpread
+import GqlVerif.Proofs.C01DenyTreeClass
+import GqlVerif.Proofs.C01DenyFragWitness
 open GqlVerif.C03
 #print axioms ok_iff_accepts
 #print axioms null_at_non_null_rejected
@@ -66,3 +68,10 @@ open GqlVerif.C03
 -- under normalization rust (Proofs/C01RustSpread.lean)
 #print axioms GqlVerif.C01.E2E.variantspread_precise_iff_rust
 #print axioms GqlVerif.C01.E2E.variantspread2_precise_iff_rust
+-- exact acceptance under deny (Proofs/C01Deny*.lean)
+#print axioms GqlVerif.C01.Deny.treeD_precise_iff
+#print axioms GqlVerif.C01.Deny.treeD_precise_iff_erased
+#print axioms GqlVerif.C01.Deny.treeR_precise_iff
+#print axioms GqlVerif.C01.Deny.fragD_precise_iff
+#print axioms GqlVerif.C01.Deny.wd_precise
+#print axioms GqlVerif.C01.Deny.fd_precise
